@@ -81,14 +81,23 @@ def random_directed_edges(rng, n, p=None, antiparallel=True):
     return e
 
 
-def adjacency(n, edges, symmetric, weights=None, dense=False):
+def adjacency(n, edges, symmetric, weights=None, dense=False, stored_zeros=None):
+    """stored_zeros: pairs that are *not* edges but are stored explicitly (value 0) in the sparse matrix."""
     a = np.zeros((n, n), dtype=float if weights is not None else int)
     for k, (i, j) in enumerate(edges):
         w = 1 if weights is None else weights[k]
         a[i, j] = w
         if symmetric:
             a[j, i] = w
-    return a if dense else sp.csr_matrix(a)
+    if dense:
+        return a
+    if stored_zeros:
+        rows, cols = np.nonzero(a)
+        data = a[rows, cols]
+        gr = [i for i, j in stored_zeros if a[i, j] == 0] + ([j for i, j in stored_zeros if a[i, j] == 0] if symmetric else [])
+        gc = [j for i, j in stored_zeros if a[i, j] == 0] + ([i for i, j in stored_zeros if a[i, j] == 0] if symmetric else [])
+        return sp.csr_matrix((np.concatenate([data, np.zeros(len(gr), dtype=a.dtype)]), (np.concatenate([rows, gr]).astype(int), np.concatenate([cols, gc]).astype(int))), shape=(n, n))
+    return sp.csr_matrix(a)
 
 
 # ------------------------------------------------------------------------------ meshes
